@@ -136,6 +136,7 @@ type zzvRec struct {
 	wantKeys  []cid.Cid
 	cwCalls   int
 	cwKeys    []cid.Cid
+	onWant    func() // what the "network" does as soon as the want is out (e.g. answer at once)
 }
 
 func (r *zzvRec) want(ctx context.Context, ks []cid.Cid) {
@@ -143,6 +144,9 @@ func (r *zzvRec) want(ctx context.Context, ks []cid.Cid) {
 	r.wantCalls++
 	r.wantKeys = append(r.wantKeys, ks...)
 	r.mu.unlock()
+	if r.onWant != nil {
+		r.onWant()
+	}
 }
 
 func (r *zzvRec) cwants(ks []cid.Cid) {
@@ -326,6 +330,17 @@ func zzvGetter(light bool) {
 	defer cancel()
 	defer sesscancel()
 	rec := &zzvRec{}
+	log := &zzvPubLog{}
+	// a zero-latency answer: the first requested block is published the moment the want has been expressed
+	// (from inside the want callback), i.e. before AsyncGetBlocks returns
+	if nk > 0 && verifrt.Param("W", 1) == 1 && verifrt.NondetRange("answeredDuringWant", 0, 1) == 1 {
+		rec.onWant = func() {
+			log.seq++
+			log.tags[0] = append(log.tags[0], log.seq) // keys[0] is pool[0]
+			log.beforeStop[0] = true
+			notif.Publish(peer.ID(""), zzvBlock(pool[0], log.seq))
+		}
+	}
 
 	out, err := bsgetter.AsyncGetBlocks(ctx, sessctx, keys, notif, rec.want, rec.cwants)
 	verifrt.Assert("C37.async-get-no-error", err == nil && out != nil)
@@ -349,7 +364,6 @@ func zzvGetter(light bool) {
 			sesscancel()
 		}
 	}
-	log := &zzvPubLog{}
 	stopped := false
 	for i := 0; i < nb; i++ {
 		if cancelAt == i {
